@@ -44,7 +44,7 @@ BOUND = {
     "thorough": "seq: length <=6; cat: L(4,3) x catalogue x every site x blanks 0..2; voc: full one-row product, two-row with one deviating slot, three-row malformed x representative",
 }
 # as-built additions to the bound (kept next to BOUND so that the evidence reports them)
-BOUND = {k: v + "; plus: " + 'catalogue entries for entity save_to errors and for errors that depend on earlier rows; survey / choices column headers equal to internal keys; osm sheet variants' for k, v in BOUND.items()}
+BOUND = {k: v + "; plus: " + 'alias / canonical header pairs in both column orders (survey, settings); a markdown row wider than its header; table-list groups around from-file / reference-built lists; a search() list shared with a randomize select; jr and flat headers; catalogue entries for entity save_to errors and for errors that depend on earlier rows; survey / choices column headers equal to internal keys; osm sheet variants' for k, v in BOUND.items()}
 
 NAMES = ["a", "b", "d", "e", "f", "g"]
 CHOICES = [{"list_name": "c", "name": "x", "label": "X"}, {"list_name": "c", "name": "y", "label": "Y"}]
@@ -473,6 +473,22 @@ def m_seq(kind):
             rows[0:0] = [{"type": "text", "name": "trg9", "label": "T"}, {"type": "background-geopoint", "name": "bgv9", "trigger": "${trg9}"},
                          {"type": "begin group", "name": "gtz9", "label": "G"}, {"type": "background-geopoint", "name": "bgv8", "trigger": "${trg9}"}, {"type": "end group"}]
             return E(k + 5, True)
+        if kind in ("tablelist-from-file", "tablelist-ref-list"):
+            # the selects of a table-list group must use a list of the choices sheet
+            if q or rows[k]["type"] != "begin group":
+                raise Skip
+            rows[k]["appearance"] = "table-list"
+            rows.insert(0, {"type": "text", "name": "tq9", "label": "T"})
+            ty = "select_one_from_file f.csv" if kind.endswith("file") else "select_one ${tq9}"
+            rows[k + 2:k + 2] = [{"type": ty, "name": "tl1", "label": "A"}]
+            return E(k + 2, True)
+        if kind == "search-list-shared-with-randomize":
+            if not q:
+                raise Skip
+            rows[k].update(type="select_one c", appearance="search('f')", label="L")
+            rows[k].pop("calculation", None)
+            rows.insert(0, {"type": "select_one c", "name": "rz9", "label": "R", "parameters": "randomize=true"})
+            return E(None, False, ["rz9"])
         if kind in ("instance-clash-interleaved", "instance-clash-adjacent"):
             if i != 0:
                 raise Skip
@@ -501,6 +517,9 @@ CATALOGUE = {
     "space-choice-second-multiple": m_seq("space-choice-second-multiple"),
     "bg-trigger-unknown-after-valid": m_seq("bg-trigger-unknown-after-valid"),
     "bg-trigger-group-after-valid": m_seq("bg-trigger-group-after-valid"),
+    "tablelist-from-file": m_seq("tablelist-from-file"),
+    "tablelist-ref-list": m_seq("tablelist-ref-list"),
+    "search-list-shared-with-randomize": m_seq("search-list-shared-with-randomize"),
     "instance-clash-interleaved": m_seq("instance-clash-interleaved"),
     "instance-clash-adjacent": m_seq("instance-clash-adjacent"),
     "instance-clash-csv-interleaved": m_seq("instance-clash-csv-interleaved"),
@@ -572,7 +591,8 @@ for _c in REF_COLS_ALL:
         CATALOGUE[f"ref-dup4:{_c}"] = m_ref_dup(_c, 4)
         CATALOGUE[f"ref-dup5:{_c}"] = m_ref_dup(_c, 5)
 
-HEADER_MUTS = ["dup-header", "dup-header-trailing-space", "dup-header-case", "alias-clash", "no-type-header", "no-name-header",
+HEADER_MUTS = ["dup-header", "dup-header-trailing-space", "dup-header-case", "alias-clash", "alias-clash-rev", "alias-clash-caption-label", "alias-clash-settings-title",
+               "alias-clash-settings-ids-case", "md-wide-row", "no-type-header", "no-name-header",
                "no-survey", "omit-id+key", "dup-choices-header", "dup-settings-header"]
 HDR_FORMATS = ["xlsx", "xls", "md", "csv"]
 
@@ -623,7 +643,9 @@ def gen_cat(tier):
                             yield dict(case, blanks=b, fmt=fmt)
     for hm in HEADER_MUTS:
         for forest in forests_upto(2, 3):
-            if hm.startswith("dup-") or hm == "alias-clash":
+            if hm == "md-wide-row":
+                yield {"g": "hdr", "f": forest_to_json(forest), "mut": hm, "fmt": "md"}
+            elif hm.startswith("dup-") or hm.startswith("alias-clash"):
                 for fmt in HDR_FORMATS:
                     yield {"g": "hdr", "f": forest_to_json(forest), "mut": hm, "fmt": fmt}
             else:
@@ -708,7 +730,21 @@ def check_hdr(case):
     wb = {"survey": rows, "choices": [dict(c) for c in CHOICES]}
     mut, fmt = case["mut"], case.get("fmt", "dict")
     exp = E()
-    if mut.startswith("dup-") or mut == "alias-clash":
+    if mut == "md-wide-row":
+        # a markdown data row with more cells than the header row: the surplus cells belong to no column (as in a spreadsheet)
+        tables = _tables(wb)
+        src, kw = _tables_to_text(tables, "md")
+        lines = src.splitlines()
+        k = next(i for i, ln in enumerate(lines) if ln.startswith("| |") or ln.startswith("|  |")) + 1
+        lines[k] = lines[k].rstrip() + " surplus | more |"
+        out = run_convert("\n".join(lines) + "\n", **kw)
+        viol = []
+        if out.kind == "crash":
+            viol.append((f"internal-exception:{out.exc}:{out.where}:md-wide-row", out.msg[:200]))
+        elif out.kind == "reject" and not isinstance(out.msg, str):
+            viol.append(("md-wide-row:no-message", ""))
+        return {"outcome": f"hdr-{out.kind}", "nt": not viol, "viol": viol, "tr": 1}
+    if mut.startswith("dup-") or mut.startswith("alias-clash"):
         wb["settings"] = [{"form_title": "T"}]
         tables = _tables(wb)
         if mut == "dup-header":
@@ -726,6 +762,21 @@ def check_hdr(case):
         elif mut == "alias-clash":
             _add_col(tables["survey"], "relevant", "1")
             _add_col(tables["survey"], "relevance", "1")
+        elif mut == "alias-clash-rev":
+            # the alias left of the canonical spelling
+            _add_col(tables["survey"], "relevance", "1")
+            _add_col(tables["survey"], "relevant", "1")
+        elif mut == "alias-clash-caption-label":
+            hs = tables["survey"][0]
+            hs.insert(hs.index("label"), "caption")
+            for r in tables["survey"][1:]:
+                r.insert(hs.index("caption"), "cap")
+        elif mut == "alias-clash-settings-title":
+            tables["settings"][0].append("title")
+            tables["settings"][1].append("U")
+        elif mut == "alias-clash-settings-ids-case":
+            tables["settings"][0][:0] = ["Form_ID", "id_string"]
+            tables["settings"][1][:0] = ["a", "b"]
         elif mut == "dup-choices-header":
             _add_col(tables["choices"], "label", "dup")
             exp = E(named=["label"])
@@ -780,7 +831,8 @@ EXTRA_COLS = ["parameters", "appearance", "choice_filter", "default", "repeat_co
               "media::image::en", "label", "bind::jr:constraintMsg::en", "read_only", "save_to", "disabled",
               "guidance_hint", "bind::calculate", "bind::type", "bind::nodeset", "body::ref", "body::nodeset", "instance::id",
               "control::appearance", "constraint", "media::audio", "media::big-image", "required_message", "body::intent",
-              "bind::relevant", "bind::required", "instance::xmlns", "body::class", "bind::jr:preload", "body::mediatype"]
+              "bind::relevant", "bind::required", "instance::xmlns", "body::class", "bind::jr:preload", "body::mediatype",
+              "jr", "bind:jr", "bind:jr:x", "flat"]
 # survey column headers equal to keys of pyxform's internal JSON form (not XLSForm vocabulary): explored separately
 INTERNAL_COLS = ["bind", "control", "choices", "children", "itemset", "list_name", "columns", "query", "value", "intent",
                  "instance", "media", "parameters::x", "type::x", "name::x", "itemset::x", "action", "actions", "tags", "bind:", "body"]
